@@ -363,11 +363,26 @@ fn indexopt_clear_after_prefix(prefix: &[usize]) {
     sym::forget(c);
 }
 
-// @h prop=C05 tier=quick kind=proof engine=both inst="IndexOptimized cleared in every mode" bounds="prefixes 0,3,6 (strided) / 0,3,6,6 (saturated) / 0,3,5 (stride + u32 spill) / 0,3,2^40 (stride + u64 spill), clear, 2 unconstrained pushes" desc="clear forgets the stride AND the spill whatever mode the container was in; the next values are stored as on a fresh container"
+// @h prop=C05 tier=quick kind=proof engine=both inst="IndexOptimized cleared in mode: strided" bounds="prefix 0,3,6 (strided), clear, 2 unconstrained pushes" desc="clear forgets the stride AND the spill whatever mode the container was in; the next values are stored as on a fresh container"
 #[cfg_attr(kani, kani::proof, kani::unwind(8))]
-pub fn c05_indexopt_clear_in_every_mode() {
+pub fn c05_indexopt_clear_strided() {
     indexopt_clear_after_prefix(&[0, 3, 6]);
+}
+
+// @h prop=C05 tier=quick kind=proof engine=both inst="IndexOptimized cleared in mode: saturated" bounds="prefix 0,3,6,6 (saturated), clear, 2 unconstrained pushes" desc="clear forgets the stride AND the spill whatever mode the container was in; the next values are stored as on a fresh container"
+#[cfg_attr(kani, kani::proof, kani::unwind(8))]
+pub fn c05_indexopt_clear_saturated() {
     indexopt_clear_after_prefix(&[0, 3, 6, 6]);
+}
+
+// @h prop=C05 tier=quick kind=proof engine=both inst="IndexOptimized cleared in mode: spilled32" bounds="prefix 0,3,5 (stride + u32 spill), clear, 2 unconstrained pushes" desc="clear forgets the stride AND the spill whatever mode the container was in; the next values are stored as on a fresh container"
+#[cfg_attr(kani, kani::proof, kani::unwind(8))]
+pub fn c05_indexopt_clear_spilled32() {
     indexopt_clear_after_prefix(&[0, 3, 5]);
+}
+
+// @h prop=C05 tier=quick kind=proof engine=both inst="IndexOptimized cleared in mode: spilled64" bounds="prefix 0,3,2^40 (stride + u64 spill), clear, 2 unconstrained pushes" desc="clear forgets the stride AND the spill whatever mode the container was in; the next values are stored as on a fresh container"
+#[cfg_attr(kani, kani::proof, kani::unwind(8))]
+pub fn c05_indexopt_clear_spilled64() {
     indexopt_clear_after_prefix(&[0, 3, 1 << 40]);
 }
